@@ -256,7 +256,7 @@ impl Model for DefaultModel {
                     let mut matched = true;
                     for (i, field_value) in field_values.iter().enumerate() {
                         if !field_value.is_empty()
-                            && &rule[field_index + i] != field_value
+                            && rule.get(field_index + i) != Some(field_value)
                         {
                             matched = false;
                             break;
@@ -367,7 +367,7 @@ impl Model for DefaultModel {
                     let mut matched = true;
                     for (i, field_value) in field_values.iter().enumerate() {
                         if !field_value.is_empty()
-                            && &rule[field_index + i] != field_value
+                            && rule.get(field_index + i) != Some(field_value)
                         {
                             matched = false;
                             break;
